@@ -181,6 +181,8 @@ type ctl struct {
 	curID   string
 	prevID  string
 	seenIDs map[string]bool
+	bodies  map[string]string // request id -> event body as first delivered
+	posted  []string          // event payloads posted by the callers, in order
 }
 
 func errType(b []byte) string {
@@ -196,7 +198,7 @@ func runSeq(snapshot bool, seq []string) (func(), *stack.Config, *[]string) {
 	var mismatches []string
 	body := func() {
 		mismatches = mismatches[:0]
-		c := &ctl{seenIDs: map[string]bool{}}
+		c := &ctl{seenIDs: map[string]bool{}, bodies: map[string]string{}}
 		cfg.Runtime = func(rt *stack.Actor) {
 			for {
 				sched.Block("await-command", nil, func() bool { return c.cmd != "" })
@@ -258,9 +260,16 @@ func runSeq(snapshot bool, seq []string) (func(), *stack.Config, *[]string) {
 				}
 				c.seenIDs[r.ReqID] = true
 				c.prevID, c.curID = c.curID, r.ReqID
+				c.bodies[r.ReqID] = string(r.Body)
+				if k := len(c.seenIDs) - 1; k < len(c.posted) && string(r.Body) != c.posted[k] {
+					mismatches = append(mismatches, fmt.Sprintf("%s: the invocation carries event %q, the caller posted %q", where, string(r.Body), c.posted[k]))
+				}
 			}
 			if p.sameID && r.ReqID != c.curID {
 				mismatches = append(mismatches, fmt.Sprintf("%s: a repeated next must return the same invocation, got %q instead of %q", where, r.ReqID, c.curID))
+			}
+			if p.sameID && string(r.Body) != c.bodies[c.curID] {
+				mismatches = append(mismatches, fmt.Sprintf("%s: a repeated next must return the same invocation, the event body is %q instead of %q", where, string(r.Body), c.bodies[c.curID]))
 			}
 		}
 		for i, sym := range seq {
@@ -271,6 +280,7 @@ func runSeq(snapshot bool, seq []string) (func(), *stack.Config, *[]string) {
 				rel := m.event(sym)
 				switch sym {
 				case "INVOKE":
+					c.posted = append(c.posted, fmt.Sprintf(`{"i":%d}`, i))
 					sched.Go("client", func() { w.ServerInvoke([]byte(fmt.Sprintf(`{"i":%d}`, i))) })
 				case "RESTORE":
 					sched.Go("restorer", func() { w.ServerRestore(&interop.Restore{RestoreHookTimeoutMs: 200000}) })
